@@ -99,6 +99,18 @@ func parseSequenceTuple(data []byte) (*SequenceData, error) {
 		return nil, fmt.Errorf("sequence data too short")
 	}
 
+	// PostgreSQL 10+ keeps only the runtime state in the sequence relation
+	// (FormData_pg_sequence_data): last_value int64, log_cnt int64, is_called bool,
+	// 17 bytes in all. Both layouts handled below are at least 52 bytes long, so
+	// anything shorter is this layout whatever the low bytes of last_value are.
+	if len(data) < 52 {
+		seq.LastValue = int64(binary.LittleEndian.Uint64(data[0:8]))
+		if len(data) >= 17 {
+			seq.IsCalled = data[16] != 0
+		}
+		return seq, nil
+	}
+
 	offset := 0
 
 	// Try to determine format by looking at the data
